@@ -447,6 +447,10 @@ def name_hazard(base) -> None:
         pool = {"special": HAZARD_SPECIAL, "appdep": HAZARD_APPDEP, "manifest": HAZARD_MANIFEST}[kind]
         st = comps[i].get("stage", 0)
         free = [n for n in pool if not any(c.get("stage", 0) == st and c["name"] == n for c in comps)]
+        # replication rewrites references textually (recorded under C03): a name that contains, or is contained in,
+        # another component's name (e.g. `a` at the end of `myData`) would bring that mechanism into this check
+        others = [c["name"] for j, c in enumerate(comps) if j != i]
+        free = [n for n in free if not any(o in n or n in o for o in others)]
         if not free:
             continue
         new = hr.choice(free)
